@@ -170,9 +170,12 @@ def r3(p, rep):
                 common.thorough_paths(rep, f"C02.R3:{f.qualname.split('::')[1]}:{short}", cfg, cfg.node_for(call), ret, [fe[0]], dominator_verdict=dominates)
             # the collection tested by the `if` and the condition under which it is filled
             coll = None
+            direct = None
             t = iff.test
             if isinstance(t, ast.Compare) and isinstance(t.left, ast.Call) and isinstance(t.left.func, ast.Name) and t.left.func.id == "len":
                 coll = norm(t.left.args[0])
+                if not isinstance(t.left.args[0], ast.Name):
+                    direct = t.left.args[0]  # `if len(<expression>) > 0`
             # `if any(<test> for v in S): raise`: the element test is the condition
             anyc = []
             if isinstance(t, ast.Call) and isinstance(t.func, ast.Name) and t.func.id == "any" and len(t.args) == 1 and isinstance(t.args[0], (ast.GeneratorExp, ast.ListComp)):
@@ -198,10 +201,14 @@ def r3(p, rep):
                 from sa.cfg import decompose
 
                 builds = [a for a in walk_no_nested(f.node) if isinstance(a, ast.Assign) and any(norm(t2) == coll for t2 in a.targets) and a.lineno < iff.lineno]
-                if builds:
-                    v = max(builds, key=lambda a: a.lineno).value
+                if builds or direct is not None:
+                    v = max(builds, key=lambda a: a.lineno).value if direct is None else direct
                     if isinstance(v, ast.Call) and norm(v.func) in ("set", "list", "frozenset", "tuple", "sorted") and len(v.args) == 1:
                         v = v.args[0]
+                    if isinstance(v, ast.Call):
+                        # the collection is built by an extracted one-expression helper: read its filters with
+                        # the arguments (and defaults) of this call
+                        v = common.expand_pure_call(p, f.module, v) or v
                     if isinstance(v, (ast.SetComp, ast.ListComp, ast.GeneratorExp)):
                         for g in v.generators:
                             for c in g.ifs:
@@ -226,8 +233,9 @@ def r3(p, rep):
                 rep.violation("C02.R3", key, site, "the check does not guard the return (a path to `return` avoids it)")
                 continue
             if short == "NoSolution":
-                ops = [(c.ops[0], c.comparators[0]) for c in conds if isinstance(c, ast.Compare) and len(c.ops) == 1 and isinstance(c.comparators[0], ast.Constant) and c.comparators[0].value == 0]
-                good = any(isinstance(o, ast.LtE) for o, _ in ops) if want_le else any(isinstance(o, (ast.Lt, ast.LtE)) for o, _ in ops)
+                # smallest value that passes the test: `< c` -> c, `<= c` -> c + 1
+                least = [c.comparators[0].value + (1 if isinstance(c.ops[0], ast.LtE) else 0) for c in conds if isinstance(c, ast.Compare) and len(c.ops) == 1 and isinstance(c.ops[0], (ast.Lt, ast.LtE)) and isinstance(c.comparators[0], ast.Constant) and type(c.comparators[0].value) is int]
+                good = any(v == 1 for v in least) if want_le else any(v in (0, 1) for v in least)
                 rep.add("C02.R3", key, site, good, f"sign test {[norm(c) for c in conds][-1:] } " + ("(lengths must be >= 1: `<= 0`)" if want_le else "(depths / expansions must be >= 0: `< 0`)") if conds else "no sign comparison with 0 guards the failure set")
             else:
                 good = any(isinstance(c, ast.Compare) and isinstance(c.ops[0], ast.NotIn) for c in conds)
